@@ -310,6 +310,41 @@ func runC08(c *Ctx) {
 			c.Check(ok1 && len(parseOK) > 0, "R4", "pointer-verdict:needs-clean-parse", p.InstrPos(ci), "input is declared a pointer only after it parsed cleanly (or the read failed)", "input can be declared an existing pointer although it did not parse as one: "+p1)
 			c.Check(ok2 && len(short) > 0, "R4", "pointer-verdict:needs-short-input", p.InstrPos(ci), "input is declared a pointer only when fewer bytes than the cutoff were read (or the read failed)", "input of cutoff length or more can be declared an existing pointer, so the rest of the stream is dropped: "+p2)
 		}
+		// the converse: input goes on to be hashed and stored only if it failed to parse or is not short — every
+		// parseable short input (canonical or not) is left alone
+		parseFail := PassEdges(ctt, func(cond ssa.Value) (bool, bool) {
+			e, trueMeansNil, ok := IsErrNilCheck(cond)
+			if ok && ResultOfCall(e, dec, 2) {
+				return !trueMeansNil, true
+			}
+			return false, false
+		})
+		long := PassEdges(ctt, func(cond ssa.Value) (bool, bool) {
+			op, x, y, ok := BinCmp(cond)
+			if !ok {
+				return false, false
+			}
+			k, isK := ConstInt(y)
+			lc, isCall := x.(*ssa.Call)
+			if !isK || !isCall || k != cutoff {
+				return false, false
+			}
+			if bi, ok := lc.Call.Value.(*ssa.Builtin); !ok || bi.Name() != "len" {
+				return false, false
+			}
+			switch op {
+			case token.LSS:
+				return false, true
+			case token.GEQ:
+				return true, true
+			}
+			return false, false
+		})
+		for _, ci := range CallsIn(ctt, "tools.CopyWithCallback", "io.Copy") {
+			okc, pc := Guarded(ctt.Blocks[0], ci, append(append([]Edge{}, parseFail...), long...), nil)
+			c.Check(okc && len(parseFail) > 0 && len(long) > 0, "R4", "content-verdict:only-unparseable-or-long", p.InstrPos(ci), "input is stored as content only if it did not parse as a pointer or is not short",
+				"short input that parsed as a pointer can still be hashed and stored as content (an extra condition on the pointer, e.g. being canonical): a non-canonical pointer is wrapped into a pointer to a pointer: "+pc)
+		}
 	}
 
 	// ---- R5: whole-prefix reads -----------------------------------------------------------------
@@ -427,6 +462,7 @@ func runC08(c *Ctx) {
 	emptyShortcutRule(c, "R7")
 	decodeFromWholeStream(c, "R8")
 	extensionKeySplit(c, "R4")
+	smudgeDecidesFirst(c, "R6")
 	c08SmudgePassesAllNonPointers(c)
 	c08BlankLines(c)
 
